@@ -247,9 +247,10 @@ RExpire == /\ resv.exists /\ resv.st \in {"pending", "unsched", "scheduled"}
 RDelete == /\ resv.exists /\ resv' = NoResv
            /\ EnvFrame /\ UNCHANGED <<pod, now, restarted>>
 \* the reservation is consumed by some other pod, or by a pod that replaced the target under the same name
-RBind(who) == /\ resv.exists /\ resv.st = "scheduled" /\ who \in {"other", "same"}
+\* "gone": consumed by some other pod that has been deleted since (the reservation controller has emptied currentOwners)
+RBind(who) == /\ resv.exists /\ resv.st = "scheduled" /\ who \in {"other", "same", "gone"}
               /\ (who = "same" => pod.exists /\ pod.uid > 1 /\ pod.node = resv.node)
-              /\ resv' = [resv EXCEPT !.st = "succeeded", !.bound = who]
+              /\ resv' = [resv EXCEPT !.st = "succeeded", !.bound = IF who = "gone" THEN "" ELSE who]
               /\ EnvFrame /\ UNCHANGED <<pod, now, restarted>>
 PodDelete == /\ pod.exists /\ pod' = [pod EXCEPT !.exists = FALSE, !.node = "", !.ready = FALSE]
              /\ EnvFrame /\ UNCHANGED <<resv, now, restarted>>
